@@ -30,7 +30,7 @@ from pathlib import Path
 
 from harness.lib import LEAN, REPO
 
-PROPS = ["C09"]
+PROPS = ["C09", "C18"]
 OUT = LEAN / "PyttbModel" / "Generated" / "CpAlsFormulas.lean"
 SRC = REPO / "pyttb" / "cp_als.py"
 
